@@ -7,3 +7,5 @@ for tc in t.iter('testcase'):
     if any(c.tag in('failure','error','skipped') for c in tc): bad.add(name)
     else: ok.add(name)
 print('passed',len(ok),'failed',len(bad),'baseline missing',sorted(want-ok)[:20], 'newly passing', len(ok-want))
+
+sys.exit(1 if (want-ok) else 0)
